@@ -27,7 +27,7 @@ BUDGET_S = {'quick': 110, 'thorough': 540}
 NUMBA_THREADS = 2
 SUBJECTS = ['cpa', 'cpa_alt', 'dpa', 'anova', 'nicv', 'snr', 'mia', 'tbuild', 'tstatic', 'tdpa']
 KINDS = ['traces_list', 'data_list', 'data_none', 'rows_mismatch', 'traces_1d', 'trace_len', 'word_count', 'data_float', 'dpa_nonbinary',
-         'auto_big', 'auto_negative', 'memory_refused', 'data_int64', 'traces_float16']
+         'auto_big', 'auto_negative', 'memory_refused', 'data_int64', 'traces_float16', 'traces_3d']
 REQUIRED_COUNTERS = ['auto_partition_first_call_rejections', 'rejections_observed', 'rejections_first_call', 'rejections_later_call', 'state_after_rejection_compared',
                      'later_results_compared', 'analysis_process_rejections', 'analysis_run_interruptions', 'template_run_before_build']
 RULE = ('a case = (distinguisher in 10 classes | analysis class, rejection kind in 12 + 5 analysis-level kinds, number k <= 4 of accepted batches, '
@@ -46,7 +46,7 @@ def setup():
 
 
 def applicable(name, kind, p):
-    if kind in ('traces_list', 'data_list', 'data_none', 'rows_mismatch', 'traces_1d'):
+    if kind in ('traces_list', 'data_list', 'data_none', 'rows_mismatch', 'traces_1d', 'traces_3d'):
         return True
     if kind == 'trace_len':
         return p >= 1 or name in ('tstatic', 'tdpa')
@@ -135,6 +135,8 @@ def _bad_call(kind, tr, d, rng, name):
         return tr, np.concatenate([d, d[:1]])
     if kind == 'traces_1d':
         return np.ascontiguousarray(tr[:, 0]), d
+    if kind == 'traces_3d':
+        return np.ascontiguousarray(np.repeat(tr[:, :, None], 2, axis=2)), d
     if kind == 'trace_len':
         return np.concatenate([tr, tr[:, :1]], axis=1), d
     if kind == 'word_count':
